@@ -21,7 +21,7 @@ from aioslsk.distributed import DistributedNetwork, DistributedPeer
 from aioslsk.network.connection import CloseReason, ConnectionState, DataConnection
 from aioslsk.network.network import Network
 from aioslsk.protocol.messages import (
-    DistributedSearchRequest, DistributedServerSearchRequest, PeerSearchReply, ServerSearchRequest,
+    DistributedBranchLevel, DistributedBranchRoot, DistributedSearchRequest, DistributedServerSearchRequest, PeerSearchReply, ServerSearchRequest,
 )
 from aioslsk.search.manager import SearchManager
 from aioslsk.shares.model import SharedDirectory, SharedItem
@@ -133,8 +133,11 @@ def build_tree(c, w: World, roles, symbolic_names=False):
 
 def live_children(roles, conns):
     """reference fan-out set: connections that were accepted as children (role book-keeping of the harness: from the
-    admission until the connection closes) and are open.  Deliberately not read from DistributedNetwork.children."""
-    return [conn for i, conn in conns.items() if roles[i] == 'child' and conn.state is ConnectionState.CONNECTED]
+    admission until the connection closes) and are open, i.e. not closing / closed (a connection accepted on the
+    listening port is a child while its accept callback is still running and its state is not CONNECTED yet).
+    Deliberately not read from DistributedNetwork.children."""
+    return [conn for i, conn in conns.items()
+            if roles[i] == 'child' and conn.state not in (ConnectionState.CLOSING, ConnectionState.CLOSED)]
 
 
 def one_request(c, w: World, sm, shares, fs, conns, roles, carrier, tag, matches=None, fixed_sender=None,
@@ -207,7 +210,8 @@ def one_request(c, w: World, sm, shares, fs, conns, roles, carrier, tag, matches
         for i, conn in conns.items():
             if not any(conn is x for x in fanout):
                 continue
-            fr = new[i]
+            # what we tell a (new) child about our position is not search traffic
+            fr = [f for f in new[i] if type(f) not in (DistributedBranchLevel.Request, DistributedBranchRoot.Request)]
             if own_req:
                 c.check(len(fr) == 0, 'own_search_not_forwarded', sig=sig)
                 continue
@@ -336,6 +340,52 @@ def h_fault(c, roles, carrier, fault):
         w.cleanup()
 
 
+def h_accept(c, roles, carrier, stall):
+    """a child is admitted through the real accept path (ListeningConnection.accept -> Network.on_peer_accepted ->
+    PeerInitializedEvent -> _add_child); the connection state is whatever the real code sets (UNINITIALIZED until the
+    accept callback returns).  The callback is still suspended - stall = 'socket' / 'socket_root': the child's socket
+    does not drain at the level / root frame of _add_child; 'listener': another PeerInitializedEvent listener takes
+    its time - when a search request comes in: the new child is a current child and gets it exactly once."""
+    from aioslsk.events import PeerInitializedEvent
+    with FileSizes() as fs:
+        w, sm, shares = mk_world(c, True)
+        roles = list(roles)
+        conns = build_tree(c, w, roles)
+        w.dn._accept_children, w.dn._max_children = True, 10
+        gate = None
+        if stall == 'listener':
+            gate = w.loop.create_future()
+
+            async def slow_listener(event):
+                await gate
+            w.extra_listener = slow_listener        # the bus only keeps weak references
+            w.bus.register(PeerInitializedEvent, slow_listener)
+        u = tok(c, 'u_new', 1, 3)
+        nc, task = w.accept_incoming(u, hang_from={'socket': 1, 'socket_root': 2}.get(stall, 0))
+        i = len(roles)
+        conns[i] = nc
+        roles.append('child' if any(p.connection is nc for p in w.dn.children) else 'cand')
+        c.reach('accept_suspended' if not task.done() else 'accept_finished')
+        if roles[i] == 'child' and not task.done():
+            c.reach('child_while_accepting')
+            if nc.state is ConnectionState.CONNECTED:
+                raise symex.HarnessError('accepted connection CONNECTED before the accept callback returned')
+
+        def resume():
+            w.settle()
+            nc.fake_writer.release()
+            if gate is not None and not gate.done():
+                w.loop.call(gate.set_result, None)
+        first = one_request(c, w, sm, shares, fs, conns, roles, carrier, '', after_deliver=resume, sig_extra=['accepting_' + stall])
+        if first is False:
+            w.cleanup()
+            return
+        c.check(task.done() and nc.state is ConnectionState.CONNECTED, 'accept_completes', sig=[stall])
+        one_request(c, w, sm, shares, fs, conns, roles, carrier, '_2', fixed_sender=None if first is True else first,
+                    sig_extra=['accepted'])
+        w.cleanup()
+
+
 def h_answer(c, carrier, session=True):
     """the local answer: a request into a small tree (parent, child, candidate) with 0..2 visible and 0..2 locked matches"""
     roles = ['child', 'parent', 'cand']
@@ -434,6 +484,18 @@ def jobs(tier):
             for f in faults:
                 out.append({'harness': 'fault', 'fn': h_fault, 'params': {'roles': shape, 'carrier': carrier, 'fault': f},
                             'requires': ['request_' + carrier, 'fault_' + f[0], 'forwarded']})
+    acc_shapes = [['child', 'parent', 'absent', 'absent'], ['child', 'absent', 'absent', 'absent']] if tier == 'quick' else \
+        [['child', 'parent', 'absent', 'absent'], ['child', 'absent', 'absent', 'absent'], ['absent', 'parent', 'absent', 'absent'],
+         ['child', 'child', 'parent', 'cand'], ['child', 'closing_child', 'parent', 'absent']]
+    for shape in acc_shapes:
+        for carrier in CARRIERS:
+            if carrier != 'server' and 'parent' not in shape:
+                continue
+            for stall in ('socket', 'socket_root', 'listener'):
+                if stall == 'socket_root' and 'parent' not in shape:
+                    continue        # a root frame is only sent at a level other than 0
+                out.append({'harness': 'accept', 'fn': h_accept, 'params': {'roles': shape, 'carrier': carrier, 'stall': stall},
+                            'requires': ['request_' + carrier, 'child_while_accepting', 'forwarded']})
     for carrier in CARRIERS:
         out.append({'harness': 'answer', 'fn': h_answer, 'params': {'carrier': carrier, 'session': True},
                     'requires': ['request_' + carrier, 'answer_expected', 'no_answer_expected']})
